@@ -93,7 +93,7 @@ def edit_case(rng, c, kind):
                     cur = dict((q, w) for q, w in a["to"]["v"]).get(x, cur)
                 pairs.append([x, cur])
         a["to"] = M(pairs)
-        if kind == "same-position" and len(a["axis"]) > 1 and rng.random() < 0.4:
+        if kind == "same-position" and len(a["axis"]) > 1 and rng.random() < 0.7:
             # one position word for every axis of the call: the data is there already along (at least) this axis
             a["to"] = S(t)
     elif kind == "boundary-word":
@@ -234,8 +234,8 @@ def gen_transform(rng, n):
                 bins = bins[::-1]
         out.append({"ev": "TransformIll", "t": {"periodic": rng.choice([False, False, True, "default"]), "method": method,
                                                 "has_outer": rng.random() < 0.6, "bins": bins,
-                                                "bypass": rng.choice(["none", "none", "true", "false"]), "target_da": rng.random() < 0.4,
-                                                "target_lazy": rng.random() < 0.5, "data_lazy": rng.random() < 0.2,
+                                                "bypass": rng.choice(["none", "none", "true", "false"]), "target_da": rng.random() < 0.5,
+                                                "target_lazy": rng.random() < 0.6, "data_lazy": rng.random() < 0.2,
                                                 "bins_dtype": rng.choice(["float64", "float64", "int64", "uint8", "uint16", "float32"])}})
     return out
 
@@ -250,7 +250,7 @@ KNOWN_UNUSED = "unknown-boundary-word-or-non-numeric-fill-accepted-when-nothing-
 def run(ctx):
     thorough = ctx.tier == "thorough"
     rng = random.Random(ctx.seed * 275604541 + 20)
-    cases = gen_cases(rng, 20000 if thorough else 3000) + gen_transform(rng, 3000 if thorough else 900)
+    cases = gen_cases(rng, 20000 if thorough else 3000) + gen_transform(rng, 4000 if thorough else 1500)
     for k, c in enumerate(cases):
         c["id"] = k + 1
     recs = ctx.pmap(execute, cases)
